@@ -526,8 +526,10 @@ func c19Bytes(g *Rng, n int) []byte {
 			b = append(b, byte(0x20+g.Intn(0x5f)))
 		case x < 82:
 			b = append(b, byte(0x80+g.Intn(0x80)))
-		case x < 90:
+		case x < 86:
 			b = append(b, byte(g.Intn(256)))
+		case x < 90: // over-long and otherwise malformed two- and three-byte forms (a continuation byte does follow)
+			b = append(b, [][]byte{{0xc0, 0x80}, {0xc1, 0xbf}, {0xc0, 0xaf}, {0xe0, 0x80, 0x80}, {0xed, 0xa0, 0x80}, {0xf0, 0x80, 0x80, 0x80}, {0xf4, 0x90, 0x80, 0x80}, {0xc2, 0x41}}[g.Intn(8)]...)
 		default:
 			b = append(b, []byte(string(rune(c19Runes[2+g.Intn(15)])))...)
 		}
@@ -786,6 +788,13 @@ func runC19(r *Run) {
 		{{K: "Write", B: []byte("a")}, {K: "ReadByte"}, {K: "ReadString", B: []byte("a")}, {K: "Grow", N: 0}, {K: "UnreadByte"}},
 		{{K: "Grow", N: 1 << 62}},
 		{{K: "Write", B: []byte("a")}, {K: "Grow", N: 1<<63 - 1}},
+		// malformed UTF-8 in front of ReadRune: over-long two-byte forms, a surrogate, a lead byte without its continuation
+		{{K: "Write", B: []byte("a\xc0\x80z")}, {K: "ReadRune"}, {K: "ReadRune"}, {K: "UnreadRune"}, {K: "ReadRune"}, {K: "ReadRune"}, {K: "ReadRune"}, {K: "String"}},
+		{{K: "Write", B: []byte("\xc1\xbf\xed\xa0\x80\xc2")}, {K: "ReadRune"}, {K: "ReadRune"}, {K: "ReadRune"}, {K: "UnreadRune"}, {K: "ReadRune"}, {K: "ReadRune"}, {K: "ReadRune"}, {K: "ReadRune"}, {K: "Len"}},
+		// an empty write is a write: it ends the chance to unread
+		{{K: "Write", B: []byte("abc")}, {K: "ReadByte"}, {K: "WriteString", B: []byte("")}, {K: "UnreadByte"}, {K: "String"}},
+		{{K: "Write", B: []byte("\xe2\x82\xacx")}, {K: "ReadRune"}, {K: "WriteString", B: []byte("")}, {K: "UnreadRune"}, {K: "String"}},
+		{{K: "Write", B: []byte("abc")}, {K: "ReadByte"}, {K: "Write", B: []byte("")}, {K: "UnreadByte"}, {K: "String"}},
 		{{K: "WriteRune", N: -1}, {K: "WriteRune", N: 0xd800}, {K: "ReadRune"}, {K: "UnreadByte"}, {K: "ReadRune"}, {K: "UnreadRune"}, {K: "UnreadRune"}},
 		{{K: "Write", B: bytes.Repeat([]byte("a"), 33)}, {K: "Read", N: 20}, {K: "Write", B: bytes.Repeat([]byte("b"), 19)}, {K: "Write", B: bytes.Repeat([]byte("c"), 40)}, {K: "String"}},
 		{{K: "ReadFrom", S: []bResp{{D: []byte("x")}, {}, {D: bytes.Repeat([]byte("y"), 512)}, {Neg: true}}}},
